@@ -18,6 +18,11 @@ type GenConfig struct {
 	MaxBlob  int
 	Weights  [NumKinds]int
 	BadPush  bool // pushes whose declared digest / size disagree with the content
+	// Recommit: an upload that has been committed is now and then committed once more
+	// with the same digest (a client that did not see the reply retries its closing
+	// request): it is refused, or it succeeds and the blob is there - also when the blob
+	// was deleted in between.
+	Recommit bool
 	// MalformedDigest: some of those pushes declare something that is no digest at all
 	// (direct use of a registry only: such a thing cannot be put into a request)
 	MalformedDigest bool
@@ -37,15 +42,16 @@ type GenConfig struct {
 
 // Gen generates operations, biased by the current model state.
 type Gen struct {
-	C       *core.Choices
-	M       *Model
-	Cfg     GenConfig
-	nextH   int
-	queue   []*Op // operations of a motif still to be issued
-	live    []int // upload handles that may still be used
-	serial  int
-	pastMan []pastManifest
-	closed  map[int]bool // HTTPSafe: handles whose writer was closed and not yet resumed
+	C         *core.Choices
+	M         *Model
+	Cfg       GenConfig
+	nextH     int
+	queue     []*Op // operations of a motif still to be issued
+	live      []int // upload handles that may still be used
+	serial    int
+	pastMan   []pastManifest
+	closed    map[int]bool // HTTPSafe: handles whose writer was closed and not yet resumed
+	committed []int        // Recommit: handles that were committed (the last few)
 }
 
 type pastManifest struct {
@@ -187,6 +193,11 @@ func (g *Gen) pickBlobRef(repo string) jsonDesc {
 	return jsonDesc{MediaType: "application/vnd.oci.image.layer.v1.tar", Digest: string(g.randomDigest()), Size: int64(g.C.Range("ref.size", 1, 99))}
 }
 
+// missingBlobRef names something no repository has.
+func (g *Gen) missingBlobRef() jsonDesc {
+	return jsonDesc{MediaType: "application/vnd.oci.image.layer.v1.tar", Digest: string(g.randomDigest()), Size: int64(g.C.Range("ref.size", 1, 99))}
+}
+
 func max64(a, b int64) int64 {
 	if a > b {
 		return a
@@ -262,6 +273,14 @@ func (g *Gen) manifest(repo string) (data []byte, mt string) {
 	}
 	obj["annotations"] = map[string]string{"u": uniq}
 	data, _ = json.Marshal(obj)
+	if kind != 0 && g.C.Bool("man.trailing", 1, 12) {
+		// a complete manifest with something after it: a second document (whose
+		// references nobody would look at), a stray brace, text - none of it JSON as
+		// a whole - or white space, which is
+		second, _ := json.Marshal(map[string]any{"schemaVersion": 2, "mediaType": mt, "config": g.missingBlobRef(), "layers": []jsonDesc{g.missingBlobRef()}, "manifests": []jsonDesc{g.missingBlobRef()}, "subject": g.missingBlobRef()})
+		tail := [][]byte{[]byte("}"), []byte(" trailing"), second, append([]byte("\n"), second...), []byte("\n \t\n"), []byte("]"), {0}}[g.C.Int("man.trailing.what", 7)]
+		data = append(data, tail...)
+	}
 	g.pastMan = append(g.pastMan, pastManifest{data, mt})
 	if len(g.pastMan) > 12 {
 		g.pastMan = g.pastMan[1:]
@@ -524,6 +543,20 @@ func (g *Gen) Next() *Op {
 			op.Data = g.C.Bytes("up.data", g.blobLen())
 		case UpCommit:
 			op.Digest = Sha256(u.Buf)
+			if g.Cfg.Recommit && len(g.committed) > 0 && g.C.Bool("up.recommit", 1, 4) {
+				op.Handle = g.committed[g.C.Int("up.recommit.h", len(g.committed))]
+				op.Digest = Sha256(g.M.Uploads[op.Handle].Buf)
+				if g.C.Bool("up.recommit.wrongdigest", 1, 3) {
+					op.Digest = g.randomDigest()
+				}
+				return op
+			}
+			if g.Cfg.Recommit && !g.Cfg.HTTPSafe {
+				g.committed = append(g.committed, op.Handle)
+				if len(g.committed) > 4 {
+					g.committed = g.committed[1:]
+				}
+			}
 			if g.C.Bool("up.wrongdigest", 1, 6) {
 				op.Digest = g.randomDigest()
 			} else if g.Cfg.AltAlgo && g.C.Bool("up.altalgo", 1, 8) {
